@@ -182,3 +182,7 @@ def run(ctx):
     c11.stored_matrix_consumers(ctx)
     rvalue_operator_lifetime(ctx)
     eigsbase.ritz_data_of_current_call(ctx, 'Spectra::HermEigsBase')
+    # every solver constructed on an operation object re-factorizes it (set_shift): the factorization used by this solver is a
+    # function of (A, B, sigma) alone -- nothing of an earlier shift on the same object survives
+    from . import c06
+    c06.recompute_complete(ctx, only=(('Spectra::BKLDLT', 'compute'), ('Spectra::SymShiftInvert', 'set_shift')))
